@@ -1023,3 +1023,618 @@ Corollary aggregate_lower_case : forall fl trigger strip_fn strip_mac strip_mem 
   aggregate fl trigger strip_fn strip_mac strip_mem (recase_file lower_ascii f)
   = aggregate fl trigger strip_fn strip_mac strip_mem f.
 Proof. intros. apply aggregate_recase. apply lower_ascii_idem. Qed.
+
+(* ---- I6: the aggregator refines the one-pass specification --------------------------- *)
+
+(* the specification state a model state stands for *)
+Definition abs (st : agg) : sstate :=
+  {| pending := aw_pending (awaiting st);
+     depth := length (class_stack st);
+     defs := length (def_stack st) |}.
+
+Definition all_some (cs : list (option nat)) : bool :=
+  forallb (fun o => match o with Some _ => true | None => false end) cs.
+
+Definition spec_elem (ss : sstate) (e : element) : option (list (ekind * str) * sstate) :=
+  match e with
+  | EDocCmd _ c => spec_step ss true c
+  | ECmd c => spec_step ss false c
+  | EDangling _ => Some ([], ss)
+  end.
+
+(* st' adds the keys ks to st, stands for ss', and keeps the class stack free of None *)
+Definition eff (st st' : agg) (ks : list (ekind * str)) (ss' : sstate) : Prop :=
+  map ekey (documented st') = map ekey (documented st) ++ ks
+  /\ abs st' = ss'
+  /\ all_some (class_stack st') = true.
+
+Lemma eff_refl : forall st, all_some (class_stack st) = true -> eff st st [] (abs st).
+Proof. intros st H. unfold eff. rewrite app_nil_r. auto. Qed.
+
+Lemma eff_trans : forall a b c k1 k2 s1 s2,
+  eff a b k1 s1 -> eff b c k2 s2 -> eff a c (k1 ++ k2) s2.
+Proof.
+  intros a b c k1 k2 s1 s2 (A1&A2&A3) (B1&B2&B3). unfold eff. rewrite B1, A1, app_assoc. auto.
+Qed.
+
+Lemma map_ekey_update : forall i f l,
+  (forall e, entry_evolves e (f e)) -> map ekey (update_nth i f l) = map ekey l.
+Proof.
+  intros i f l H. apply map_ekey_evolves. apply Forall2_update_nth; [apply entry_evolves_refl|exact H].
+Qed.
+
+Lemma scan_name_idx_name : forall ps i cur,
+  option_map snd (scan_name_idx ps i cur) = scan_name ps (snd cur).
+Proof.
+  induction ps as [|p r IH]; intros i cur; cbn [scan_name_idx scan_name]; [reflexivity|].
+  destruct (str_eqb p kw_name).
+  - destruct r as [|n r']; [reflexivity|]. rewrite IH. reflexivity.
+  - apply IH.
+Qed.
+
+Section Refine.
+  Variable trigger : str.
+  Variables strip_fn strip_mac strip_mem : str -> str.
+
+  Lemma process_cpa_eff : forall st,
+    all_some (class_stack st) = true -> eff st (process_cpa st) [] (abs st).
+  Proof.
+    intros st H. unfold process_cpa. destruct (def_stack st) as [|[i|] r] eqn:E;
+      try (apply eff_refl; exact H).
+    unfold eff, abs. cbn [with_docs documented awaiting class_stack def_stack].
+    rewrite map_ekey_update by apply set_kwargs_evolves. rewrite app_nil_r. auto.
+  Qed.
+
+  Lemma process_def_eff : forall m c doc docd st,
+    all_some (class_stack st) = true ->
+    match singles c with
+    | [] => process_def trigger strip_fn strip_mac m c doc docd st = Crash
+    | n :: _ =>
+        exists st', process_def trigger strip_fn strip_mac m c doc docd st = Ok st'
+          /\ eff st st' [(if m then KMacro else KFunction, n)]
+                 {| pending := aw_pending (awaiting st); depth := length (class_stack st);
+                    defs := S (length (def_stack st)) |}
+          /\ awaiting st' = awaiting st
+    end.
+  Proof.
+    intros m c doc docd st H. unfold process_def. destruct (singles c) as [|n ps]; [reflexivity|].
+    eexists. split; [reflexivity|]. unfold eff, abs.
+    cbn [with_def_stack append documented awaiting class_stack def_stack length].
+    rewrite map_app. cbn [map]. destruct m; auto.
+  Qed.
+
+  Lemma claim_eff : forall m consumed c st,
+    all_some (class_stack st) = true ->
+    eff st (claim strip_mem m consumed c st) []
+        {| pending := false; depth := length (class_stack st);
+           defs := if consumed then length (def_stack st) else S (length (def_stack st)) |}.
+  Proof.
+    intros m consumed c st H. unfold claim, eff, abs.
+    set (extra := if Nat.ltb 2 _ then _ else _).
+    destruct consumed;
+      cbn [with_def_stack with_awaiting with_docs documented awaiting class_stack def_stack length];
+      rewrite (map_ekey_evolves _ _ (upd_awaiting_evolves _ _ _ _)), app_nil_r; auto.
+  Qed.
+
+  Lemma process_class_eff : forall c doc docd st,
+    all_some (class_stack st) = true ->
+    match singles c with
+    | [] => process_class c doc docd st = st
+    | n :: _ => eff st (process_class c doc docd st) [(KClass, n)]
+                    {| pending := aw_pending (awaiting st); depth := S (length (class_stack st));
+                       defs := length (def_stack st) |}
+    end.
+  Proof.
+    intros c doc docd st H. unfold process_class. destruct (singles c) as [|n su]; [reflexivity|].
+    unfold eff, abs. destruct (class_stack st) as [|[cidx|] r] eqn:E;
+      cbn [with_class_stack with_docs append documented awaiting class_stack def_stack length].
+    - rewrite E. rewrite map_app. cbn [map length all_some forallb]. auto.
+    - rewrite E. rewrite map_ekey_update by apply add_inner_evolves.
+      rewrite map_app. cbn [map length]. repeat split. cbn [all_some forallb]. exact H.
+    - discriminate H.
+  Qed.
+
+  Lemma process_test_eff : forall sec c doc docd st,
+    all_some (class_stack st) = true ->
+    match test_name c with
+    | Some n => eff st (process_test sec c doc docd st) [(if sec then KSection else KTest, n)]
+                    {| pending := true; depth := length (class_stack st);
+                       defs := length (def_stack st) |}
+    | None => process_test sec c doc docd st = st
+    end.
+  Proof.
+    intros sec c doc docd st H. unfold test_name, process_test, nargs.
+    destruct (Nat.ltb (length (singles c)) 2); [reflexivity|].
+    destruct (scan_name (singles c) []) as [n|]; [|reflexivity].
+    unfold eff, abs. cbn [with_awaiting append documented awaiting class_stack def_stack aw_pending].
+    rewrite map_app. cbn [map]. destruct sec; auto.
+  Qed.
+
+  Lemma process_add_test_eff : forall c doc docd st,
+    all_some (class_stack st) = true ->
+    match test_name c with
+    | Some n => eff st (process_add_test c doc docd st) [(KCTest, n)] (abs st)
+    | None => process_add_test c doc docd st = st
+    end.
+  Proof.
+    intros c doc docd st H. unfold test_name, process_add_test, nargs.
+    destruct (Nat.ltb (length (singles c)) 2); [reflexivity|].
+    pose proof (scan_name_idx_name (singles c) 0 (None, [])) as Hs. cbn [snd] in Hs.
+    rewrite <- Hs. destruct (scan_name_idx (singles c) 0 (None, [])) as [[idx n]|];
+      cbn [option_map snd]; [|reflexivity].
+    unfold eff, abs. cbn [append documented awaiting class_stack def_stack].
+    rewrite map_app. cbn [map]. auto.
+  Qed.
+
+  Lemma process_option_eff : forall c doc docd st,
+    all_some (class_stack st) = true ->
+    if Nat.leb 2 (nargs c) && Nat.leb (nargs c) 3
+    then eff st (process_option c doc docd st) [(KOption, nth_arg 0 c)] (abs st)
+    else process_option c doc docd st = st.
+  Proof.
+    intros c doc docd st H. unfold process_option, nargs, nth_arg.
+    destruct (singles c) as [|n [|h [|v [|x r]]]]; cbn [length Nat.leb andb nth]; try reflexivity.
+    all: unfold eff, abs; cbn [append documented awaiting class_stack def_stack];
+      rewrite map_app; cbn [map]; auto.
+  Qed.
+
+  Lemma process_member_eff : forall ctor c doc docd st,
+    all_some (class_stack st) = true ->
+    if Nat.leb 2 (nargs c) && negb (Nat.eqb (length (class_stack st)) 0)
+    then eff st (process_member ctor c doc docd st) []
+             {| pending := true; depth := length (class_stack st); defs := length (def_stack st) |}
+    else process_member ctor c doc docd st = st.
+  Proof.
+    intros ctor c doc docd st H. unfold process_member, nargs.
+    rewrite Nat.ltb_antisym. destruct (Nat.leb 2 (length (singles c))); cbn [negb andb]; [|reflexivity].
+    destruct (class_stack st) as [|[cidx|] r] eqn:E; cbn [length Nat.eqb negb]; try reflexivity.
+    - unfold eff, abs. cbn [with_awaiting with_docs documented awaiting class_stack def_stack aw_pending].
+      rewrite E. rewrite map_ekey_update by apply add_method_evolves. rewrite app_nil_r. auto.
+    - discriminate H.
+  Qed.
+
+  Lemma process_attr_eff : forall c doc docd st,
+    all_some (class_stack st) = true -> eff st (process_attr c doc docd st) [] (abs st).
+  Proof.
+    intros c doc docd st H. unfold process_attr. pose proof (eff_refl st H) as Hr.
+    destruct (Nat.ltb _ _); [exact Hr|].
+    destruct (class_stack st) as [|[cidx|] r] eqn:E; try exact Hr.
+    unfold eff, abs. cbn [with_docs documented awaiting class_stack def_stack].
+    rewrite map_ekey_update by apply add_attr_evolves. rewrite app_nil_r, E. auto.
+  Qed.
+
+  Lemma process_generic_eff : forall k c doc docd st,
+    all_some (class_stack st) = true ->
+    eff st (process_generic k c doc docd st) [(KGeneric, k)] (abs st).
+  Proof.
+    intros k c doc docd st H. unfold process_generic, eff, abs.
+    cbn [append documented awaiting class_stack def_stack]. rewrite map_app. auto.
+  Qed.
+
+  Lemma eff_with_def_stack : forall st st1 ks ss1 ds,
+    eff st st1 ks ss1 ->
+    eff st (with_def_stack ds st1) ks
+        {| pending := pending ss1; depth := depth ss1; defs := length ds |}.
+  Proof.
+    intros st st1 ks ss1 ds (A&B&C). subst ss1. unfold eff, abs.
+    cbn [with_def_stack documented awaiting class_stack def_stack pending depth]. auto.
+  Qed.
+
+  Lemma eff_with_class_stack : forall st st1 ks ss1 cs,
+    eff st st1 ks ss1 -> all_some cs = true ->
+    eff st (with_class_stack cs st1) ks
+        {| pending := pending ss1; depth := length cs; defs := defs ss1 |}.
+  Proof.
+    intros st st1 ks ss1 cs (A&B&C) Hcs. subst ss1. unfold eff, abs.
+    cbn [with_class_stack documented awaiting class_stack def_stack pending defs]. auto.
+  Qed.
+
+  (* the outcome of a model step against the outcome of the specification step *)
+  Definition sim_post (st : agg) (r : result agg) (sp : option (list (ekind * str) * sstate))
+    : Prop :=
+    match r with
+    | Ok st' => exists ks, sp = Some (ks, abs st')
+                           /\ map ekey (documented st') = map ekey (documented st) ++ ks
+                           /\ all_some (class_stack st') = true
+    | Crash => sp = None
+    end.
+
+  Lemma sim_post_eff : forall st st' ks ss' ks0 ss0,
+    eff st st' ks ss' -> ks = ks0 -> ss' = ss0 -> sim_post st (Ok st') (Some (ks0, ss0)).
+  Proof.
+    intros st st' ks ss' ks0 ss0 (A&B&C) -> <-. cbn [sim_post]. exists ks0. rewrite B. auto.
+  Qed.
+
+  Lemma sim_post_same : forall st,
+    all_some (class_stack st) = true -> sim_post st (Ok st) (Some ([], abs st)).
+  Proof. intros st H. eapply sim_post_eff; [apply eff_refl; exact H|reflexivity|reflexivity]. Qed.
+
+  Notation dstep := (agg_step default_flags trigger strip_fn strip_mac strip_mem).
+
+  Lemma agg_step_doc_eq : forall fl d c st,
+    agg_step fl trigger strip_fn strip_mac strip_mem st (EDocCmd d c)
+    = match enter_documented_k trigger strip_fn strip_mac (classify (cmd_kind c)) (cmd_kind c) d c st with
+      | Ok st1 => enter_command_k fl trigger strip_fn strip_mac strip_mem (classify (cmd_kind c)) true c st1
+      | Crash => Crash
+      end.
+  Proof.
+    intros fl d c st. cbn [agg_step]. rewrite enter_documented_eq. fold (cmd_kind c).
+    destruct (enter_documented_k trigger strip_fn strip_mac (classify (cmd_kind c)) (cmd_kind c) d c st);
+      [|reflexivity].
+    rewrite enter_command_eq. reflexivity.
+  Qed.
+
+  Lemma agg_step_cmd_eq : forall fl c st,
+    agg_step fl trigger strip_fn strip_mac strip_mem st (ECmd c)
+    = enter_command_k fl trigger strip_fn strip_mac strip_mem (classify (cmd_kind c)) false c st.
+  Proof. intros fl c st. cbn [agg_step]. rewrite enter_command_eq. reflexivity. Qed.
+
+  Ltac model_red :=
+    cbn [enter_documented_k enter_command_k handle flag_of default_flags negb
+         inc_function inc_macro inc_cpp_class inc_cpp_attr inc_cpp_constructor inc_cpp_member
+         inc_ct_add_test inc_ct_add_section inc_add_test inc_option].
+
+  (* undocumented commands *)
+  Lemma sim_cmd : forall c st,
+    all_some (class_stack st) = true ->
+    sim_post st (dstep st (ECmd c)) (spec_step (abs st) false c).
+  Proof.
+    intros c st H. rewrite agg_step_cmd_eq. unfold spec_step.
+    generalize (cmd_kind c) as k. intro k.
+    kind_cases k Hk.
+    all: try (subst k; red_lits; model_red).
+    - (* macro *)
+      rewrite andb_true_r. cbn [abs pending depth defs].
+      destruct (aw_pending (awaiting st)) eqn:Ea.
+      + eapply sim_post_eff; [apply claim_eff; exact H|reflexivity|reflexivity].
+      + pose proof (process_def_eff true c [] false st H) as Hp.
+        destruct (singles c) as [|n ps]; [rewrite Hp; reflexivity|].
+        destruct Hp as (st1 & E1 & He & _). rewrite E1.
+        eapply sim_post_eff; [exact He|reflexivity|]. rewrite Ea. reflexivity.
+    - (* function *)
+      rewrite andb_true_r. cbn [abs pending depth defs].
+      destruct (aw_pending (awaiting st)) eqn:Ea.
+      + eapply sim_post_eff; [apply claim_eff; exact H|reflexivity|reflexivity].
+      + pose proof (process_def_eff false c [] false st H) as Hp.
+        destruct (singles c) as [|n ps]; [rewrite Hp; reflexivity|].
+        destruct Hp as (st1 & E1 & He & _). rewrite E1.
+        eapply sim_post_eff; [exact He|reflexivity|]. rewrite Ea. reflexivity.
+    - (* endfunction / endmacro *)
+      destruct Hk as [Hk|Hk]; subst k; red_lits; model_red; cbn [abs pending depth defs].
+      all: destruct (def_stack st) as [|fr ds] eqn:Ed; cbn [length]; [reflexivity|].
+      all: eapply sim_post_eff;
+        [apply eff_with_def_stack, eff_refl; exact H|reflexivity|reflexivity].
+    - (* cpp_class *)
+      pose proof (process_class_eff c [] false st H) as Hp.
+      destruct (singles c) as [|n ps]; [rewrite Hp; apply sim_post_same; exact H|].
+      eapply sim_post_eff; [exact Hp|reflexivity|reflexivity].
+    - (* cpp_end_class *)
+      cbn [abs pending depth defs].
+      destruct (class_stack st) as [|fr cs] eqn:Ec; cbn [length]; [reflexivity|].
+      eapply sim_post_eff; [apply eff_with_class_stack; [apply eff_refl|]|reflexivity|reflexivity].
+      + rewrite Ec. exact H.
+      + cbn [all_some forallb] in H. apply andb_true_iff in H. apply H.
+    - (* cmake_parse_arguments *)
+      eapply sim_post_eff; [apply process_cpa_eff; exact H|reflexivity|reflexivity].
+    - (* ct_add_section *)
+      pose proof (process_test_eff true c [] false st H) as Hp.
+      destruct (test_name c) as [n|]; [|rewrite Hp; apply sim_post_same; exact H].
+      eapply sim_post_eff; [exact Hp|reflexivity|reflexivity].
+    - (* ct_add_test *)
+      pose proof (process_test_eff false c [] false st H) as Hp.
+      destruct (test_name c) as [n|]; [|rewrite Hp; apply sim_post_same; exact H].
+      eapply sim_post_eff; [exact Hp|reflexivity|reflexivity].
+    - (* set *)
+      apply sim_post_same; exact H.
+    - (* cpp_constructor *)
+      pose proof (process_member_eff true c [] false st H) as Hp. cbn [abs depth].
+      destruct (Nat.leb 2 (nargs c) && negb (Nat.eqb (length (class_stack st)) 0));
+        [|rewrite Hp; apply sim_post_same; exact H].
+      eapply sim_post_eff; [exact Hp|reflexivity|reflexivity].
+    - (* cpp_member *)
+      pose proof (process_member_eff false c [] false st H) as Hp. cbn [abs depth].
+      destruct (Nat.leb 2 (nargs c) && negb (Nat.eqb (length (class_stack st)) 0));
+        [|rewrite Hp; apply sim_post_same; exact H].
+      eapply sim_post_eff; [exact Hp|reflexivity|reflexivity].
+    - (* cpp_attr *)
+      eapply sim_post_eff; [apply process_attr_eff; exact H|reflexivity|reflexivity].
+    - (* add_test *)
+      pose proof (process_add_test_eff c [] false st H) as Hp.
+      destruct (test_name c) as [n|]; [|rewrite Hp; apply sim_post_same; exact H].
+      eapply sim_post_eff; [exact Hp|reflexivity|reflexivity].
+    - (* option *)
+      pose proof (process_option_eff c [] false st H) as Hp.
+      destruct (Nat.leb 2 (nargs c) && Nat.leb (nargs c) 3);
+        [|rewrite Hp; apply sim_post_same; exact H].
+      eapply sim_post_eff; [exact Hp|reflexivity|reflexivity].
+    - (* any other command *)
+      model_red. unfold other_kind in Hk.
+      destruct Hk as (H1&H2&H3&H4&H5&H6&H7&H8&H9&H10&H11&H12&H13&H14&H15).
+      rewrite H1, H2, H3, H4, H5, H6, H7, H8, H9, H10, H11, H12, H13, H14, H15.
+      cbn [orb]. apply sim_post_same; exact H.
+  Qed.
+
+  Lemma append_eff : forall e docd st,
+    all_some (class_stack st) = true -> eff st (append e docd st) [ekey e] (abs st).
+  Proof.
+    intros e docd st H. unfold eff, abs. cbn [append documented awaiting class_stack def_stack].
+    rewrite map_app. auto.
+  Qed.
+
+  (* documented commands *)
+  Lemma sim_doc : forall d c st,
+    all_some (class_stack st) = true ->
+    sim_post st (dstep st (EDocCmd d c)) (spec_step (abs st) true c).
+  Proof.
+    intros d c st H. rewrite agg_step_doc_eq. unfold spec_step.
+    generalize (cmd_kind c) as k. intro k.
+    kind_cases k Hk.
+    all: try (subst k; red_lits; model_red).
+    - (* macro *)
+      rewrite andb_false_r. cbn [abs pending depth defs].
+      pose proof (process_def_eff true c (clean_doc_text d) true st H) as Hp.
+      destruct (singles c) as [|n ps]; [rewrite Hp; reflexivity|].
+      destruct Hp as (st1 & E1 & He & Haw). rewrite E1.
+      destruct (aw_pending (awaiting st1)) eqn:Ea.
+      + pose proof He as (_ & Hb & Hc). unfold abs in Hb. injection Hb as _ Hb2 Hb3.
+        eapply sim_post_eff; [eapply eff_trans; [exact He|apply claim_eff; exact Hc]|reflexivity|].
+        rewrite Hb2, Hb3. reflexivity.
+      + eapply sim_post_eff; [exact He|reflexivity|]. rewrite <- Haw, Ea. reflexivity.
+    - (* function *)
+      rewrite andb_false_r. cbn [abs pending depth defs].
+      pose proof (process_def_eff false c (clean_doc_text d) true st H) as Hp.
+      destruct (singles c) as [|n ps]; [rewrite Hp; reflexivity|].
+      destruct Hp as (st1 & E1 & He & Haw). rewrite E1.
+      destruct (aw_pending (awaiting st1)) eqn:Ea.
+      + pose proof He as (_ & Hb & Hc). unfold abs in Hb. injection Hb as _ Hb2 Hb3.
+        eapply sim_post_eff; [eapply eff_trans; [exact He|apply claim_eff; exact Hc]|reflexivity|].
+        rewrite Hb2, Hb3. reflexivity.
+      + eapply sim_post_eff; [exact He|reflexivity|]. rewrite <- Haw, Ea. reflexivity.
+    - (* endfunction / endmacro *)
+      destruct Hk as [Hk|Hk]; subst k; red_lits; model_red;
+        cbn [abs pending depth defs process_generic append def_stack].
+      all: destruct (def_stack st) as [|fr ds] eqn:Ed; cbn [length]; [reflexivity|].
+      all: eapply sim_post_eff;
+        [apply eff_with_def_stack, process_generic_eff; exact H|reflexivity|reflexivity].
+    - (* cpp_class *)
+      pose proof (process_class_eff c (clean_doc_text d) true st H) as Hp.
+      destruct (singles c) as [|n ps]; [rewrite Hp; apply sim_post_same; exact H|].
+      eapply sim_post_eff; [exact Hp|reflexivity|reflexivity].
+    - (* cpp_end_class *)
+      cbn [abs pending depth defs process_generic append class_stack].
+      destruct (class_stack st) as [|fr cs] eqn:Ec; cbn [length]; [reflexivity|].
+      eapply sim_post_eff;
+        [apply eff_with_class_stack; [apply process_generic_eff|]|reflexivity|reflexivity].
+      + rewrite Ec. exact H.
+      + cbn [all_some forallb] in H. apply andb_true_iff in H. apply H.
+    - (* cmake_parse_arguments *)
+      pose proof (process_cpa_eff st H) as (A & B & C).
+      eapply sim_post_eff;
+        [eapply eff_trans; [apply process_cpa_eff; exact H|apply process_cpa_eff; exact C]
+        |reflexivity|exact B].
+    - (* ct_add_section *)
+      pose proof (process_test_eff true c (clean_doc_text d) true st H) as Hp.
+      destruct (test_name c) as [n|]; [|rewrite Hp; apply sim_post_same; exact H].
+      eapply sim_post_eff; [exact Hp|reflexivity|reflexivity].
+    - (* ct_add_test *)
+      pose proof (process_test_eff false c (clean_doc_text d) true st H) as Hp.
+      destruct (test_name c) as [n|]; [|rewrite Hp; apply sim_post_same; exact H].
+      eapply sim_post_eff; [exact Hp|reflexivity|reflexivity].
+    - (* set *)
+      unfold process_set. destruct (singles c) as [|n [|v [|v2 r]]].
+      + apply sim_post_same; exact H.
+      + eapply sim_post_eff; [apply append_eff; exact H|reflexivity|reflexivity].
+      + destruct (unquote v) as [v'|]; [|reflexivity].
+        eapply sim_post_eff; [apply append_eff; exact H|reflexivity|reflexivity].
+      + eapply sim_post_eff; [apply append_eff; exact H|reflexivity|reflexivity].
+    - (* cpp_constructor *)
+      pose proof (process_member_eff true c (clean_doc_text d) true st H) as Hp. cbn [abs depth].
+      destruct (Nat.leb 2 (nargs c) && negb (Nat.eqb (length (class_stack st)) 0));
+        [|rewrite Hp; apply sim_post_same; exact H].
+      eapply sim_post_eff; [exact Hp|reflexivity|reflexivity].
+    - (* cpp_member *)
+      pose proof (process_member_eff false c (clean_doc_text d) true st H) as Hp. cbn [abs depth].
+      destruct (Nat.leb 2 (nargs c) && negb (Nat.eqb (length (class_stack st)) 0));
+        [|rewrite Hp; apply sim_post_same; exact H].
+      eapply sim_post_eff; [exact Hp|reflexivity|reflexivity].
+    - (* cpp_attr *)
+      eapply sim_post_eff; [apply process_attr_eff; exact H|reflexivity|reflexivity].
+    - (* add_test *)
+      pose proof (process_add_test_eff c (clean_doc_text d) true st H) as Hp.
+      destruct (test_name c) as [n|]; [|rewrite Hp; apply sim_post_same; exact H].
+      eapply sim_post_eff; [exact Hp|reflexivity|reflexivity].
+    - (* option *)
+      pose proof (process_option_eff c (clean_doc_text d) true st H) as Hp.
+      destruct (Nat.leb 2 (nargs c) && Nat.leb (nargs c) 3);
+        [|rewrite Hp; apply sim_post_same; exact H].
+      eapply sim_post_eff; [exact Hp|reflexivity|reflexivity].
+    - (* any other command *)
+      model_red. unfold other_kind in Hk.
+      destruct Hk as (H1&H2&H3&H4&H5&H6&H7&H8&H9&H10&H11&H12&H13&H14&H15).
+      rewrite H1, H2, H3, H4, H5, H6, H7, H8, H9, H10, H11, H12, H13, H14, H15.
+      cbn [orb]. eapply sim_post_eff; [apply process_generic_eff; exact H|reflexivity|reflexivity].
+  Qed.
+
+  Lemma sim_step : forall e st,
+    all_some (class_stack st) = true ->
+    sim_post st (dstep st e) (spec_elem (abs st) e).
+  Proof.
+    intros [d c|c|d] st H; cbn [spec_elem].
+    - apply sim_doc; exact H.
+    - apply sim_cmd; exact H.
+    - apply sim_post_same; exact H.
+  Qed.
+
+  Lemma spec_run_cons : forall ss e r,
+    spec_run ss (e :: r)
+    = match spec_elem ss e with
+      | Some (ks, ss') => option_map (app ks) (spec_run ss' r)
+      | None => None
+      end.
+  Proof.
+    intros ss [d c|c|d] r; cbn [spec_run spec_elem]; try reflexivity.
+    destruct (spec_run ss r); reflexivity.
+  Qed.
+
+  Lemma sim_run : forall es st,
+    all_some (class_stack st) = true ->
+    match agg_run default_flags trigger strip_fn strip_mac strip_mem st es with
+    | Ok st' => exists ks, spec_run (abs st) es = Some ks
+                           /\ map ekey (documented st') = map ekey (documented st) ++ ks
+    | Crash => spec_run (abs st) es = None
+    end.
+  Proof.
+    induction es as [|e r IH]; intros st H.
+    - cbn [agg_run spec_run]. exists []. rewrite app_nil_r. auto.
+    - cbn [agg_run]. rewrite spec_run_cons. pose proof (sim_step e st H) as Hs.
+      destruct (dstep st e) as [st1|]; cbn [sim_post] in Hs.
+      + destruct Hs as (ks & Hsp & Hk & Ha). rewrite Hsp. specialize (IH st1 Ha).
+        destruct (agg_run default_flags trigger strip_fn strip_mac strip_mem st1 r) as [st'|].
+        * destruct IH as (ks2 & Hr & Hk2). rewrite Hr. cbn [option_map].
+          exists (ks ++ ks2). split; [reflexivity|]. rewrite Hk2, Hk, app_assoc. reflexivity.
+        * rewrite IH. reflexivity.
+      + rewrite Hs. reflexivity.
+  Qed.
+
+  (* I6 *)
+  Theorem entries_refine_spec : forall f st,
+    aggregate default_flags trigger strip_fn strip_mac strip_mem f = Ok st ->
+    expected_keys f = Some (map ekey (documented st)).
+  Proof.
+    intros f st H. unfold aggregate in H. unfold expected_keys.
+    destruct (f_module f) as [t|].
+    - pose proof (sim_run (f_elems f) (append (module_entry t) true agg_init) eq_refl) as Hs.
+      rewrite H in Hs. destruct Hs as (ks & Hr & Hk).
+      change (abs (append (module_entry t) true agg_init))
+        with {| pending := false; depth := 0; defs := 0 |} in Hr.
+      rewrite Hr, Hk. reflexivity.
+    - pose proof (sim_run (f_elems f) agg_init eq_refl) as Hs.
+      rewrite H in Hs. destruct Hs as (ks & Hr & Hk).
+      change (abs agg_init) with {| pending := false; depth := 0; defs := 0 |} in Hr.
+      rewrite Hr, Hk. reflexivity.
+  Qed.
+
+  Theorem crash_iff_spec_none : forall f,
+    aggregate default_flags trigger strip_fn strip_mac strip_mem f = Crash
+    <-> expected_keys f = None.
+  Proof.
+    intro f. unfold aggregate, expected_keys.
+    assert (Hs : forall st0, abs st0 = {| pending := false; depth := 0; defs := 0 |} ->
+                 all_some (class_stack st0) = true ->
+                 (agg_run default_flags trigger strip_fn strip_mac strip_mem st0 (f_elems f) = Crash
+                  <-> spec_run {| pending := false; depth := 0; defs := 0 |} (f_elems f) = None)).
+    { intros st0 Ha Hc. pose proof (sim_run (f_elems f) st0 Hc) as Hs. rewrite Ha in Hs.
+      destruct (agg_run default_flags trigger strip_fn strip_mac strip_mem st0 (f_elems f)) as [st'|].
+      - destruct Hs as (ks & Hr & _). rewrite Hr. split; discriminate.
+      - rewrite Hs. split; reflexivity. }
+    destruct (f_module f) as [t|].
+    - rewrite (Hs (append (module_entry t) true agg_init) eq_refl eq_refl).
+      destruct (spec_run _ _); cbn [option_map]; split; congruence.
+    - rewrite (Hs agg_init eq_refl eq_refl).
+      destruct (spec_run _ _); cbn [option_map]; split; congruence.
+  Qed.
+  (* I7 / C02: a documented command of no special kind yields exactly one generic entry,
+     named by the lower-cased command, with the arguments as written; whatever the flags *)
+  Theorem documented_other_generic : forall fl d c st,
+    classify (cmd_kind c) = CkOther ->
+    agg_step fl trigger strip_fn strip_mac strip_mem st (EDocCmd d c)
+    = Ok (append (EGeneric (cmd_kind c) (clean_doc_text d) (map arg_written (c_args c))) true st).
+  Proof. intros fl d c st Hk. rewrite agg_step_doc_eq, Hk. reflexivity. Qed.
+
+  Corollary one_entry_per_documented_command : forall fl d c st st',
+    agg_step fl trigger strip_fn strip_mac strip_mem st (EDocCmd d c) = Ok st' ->
+    length (documented st) <= length (documented st') <= length (documented st) + 1.
+  Proof. intros fl d c st st' H. apply agg_step_append_only_firstn in H. apply H. Qed.
+End Refine.
+
+(* ---- non-vacuity: concrete runs ------------------------------------------------------ *)
+
+Module Examples.
+  Open Scope string_scope.
+  Definition mk (n : string) (args : list string) : cmd :=
+    {| c_name := of_string n; c_args := map (fun a => ASingle TIdent (of_string a)) args |}.
+  Definition dtext : str := s"#[[[ doc ]]".
+  Definition D (n : string) (args : list string) : element := EDocCmd dtext (mk n args).
+  Definition U (n : string) (args : list string) : element := ECmd (mk n args).
+  Definition idf (x : str) : str := x.
+  Definition trig : str := s"**kwargs".
+  Definition agr (f : cfile) : result agg := aggregate default_flags trig idf idf idf f.
+  Definition keys_of (r : result agg) : option (list (ekind * str)) :=
+    match r with Ok st => Some (map ekey (documented st)) | Crash => None end.
+
+  (* a class with a member declaration claimed by an undocumented function, a test claimed by
+     a documented macro, documented end commands, NAME last, a set without doccomment *)
+  Definition file1 : cfile :=
+    {| f_module := Some (s"#[[[ @module demo");
+       f_elems :=
+         [ D "cpp_class" ["A"]; D "cpp_member" ["m"; "A"; "int"]; U "function" ["x"; "self"; "n"];
+           D "endfunction" []; U "cpp_attr" ["A"; "a"]; D "CPP_END_CLASS" [];
+           U "ct_add_test" ["NAME"; "t"]; D "macro" ["mm"; "p"]; U "endmacro" [];
+           U "add_test" ["x"; "NAME"]; D "add_test" ["NAME"; "u"; "COMMAND"; "c"];
+           U "set" ["v"; "1"]; D "set" ["v"; "1"]; D "option" ["o"; "help"]; EDangling dtext;
+           D "message" ["hi"]; U "message" ["hi"]; U "cmake_parse_arguments" [] ] |}.
+
+  Example refine_hyps_satisfiable :
+    keys_of (agr file1)
+    = Some [ (KModule, s"demo"); (KClass, s"A"); (KGeneric, s"endfunction");
+             (KGeneric, s"cpp_end_class"); (KTest, s"t"); (KMacro, s"mm"); (KCTest, s"u");
+             (KVariable, s"v"); (KOption, s"o"); (KGeneric, s"message") ]
+    /\ expected_keys file1 = keys_of (agr file1).
+  Proof. vm_compute. split; reflexivity. Qed.
+
+  (* unbalanced end command, function() without a name, set(x <empty quoted>): both crash *)
+  Example crash_hyps_satisfiable :
+    agr {| f_module := None; f_elems := [D "function" ["f"]; U "endfunction" []; D "endmacro" []] |} = Crash
+    /\ agr {| f_module := None; f_elems := [U "function" []] |} = Crash
+    /\ agr {| f_module := None; f_elems := [U "cpp_end_class" []] |} = Crash
+    /\ expected_keys {| f_module := None; f_elems := [U "function" []] |} = None.
+  Proof. vm_compute. repeat split. Qed.
+
+  (* I3: a pending member declaration, then its implementing definition *)
+  Example claimed_hyps_satisfiable :
+    exists st, agg_run default_flags trig idf idf idf agg_init
+                 [D "cpp_class" ["A"]; D "cpp_member" ["m"; "A"]] = Ok st
+               /\ awaiting st <> AwNone
+               /\ is_def_name (lower_ascii (c_name (mk "FUNCTION" ["x"; "self"]))) = true.
+  Proof. eexists. split; [vm_compute; reflexivity|]. split; [discriminate|reflexivity]. Qed.
+
+  (* I2 *)
+  Example other_hyps_satisfiable :
+    lookup (lower_ascii (c_name (mk "Generic_Command" []))) handler_table = None
+    /\ is_pop_kind (lower_ascii (c_name (mk "Generic_Command" []))) = false.
+  Proof. vm_compute. split; reflexivity. Qed.
+
+  (* I5 *)
+  Example recase_example :
+    recase_elem (map upper_char_ascii) (U "cpp_class" ["A"]) = U "CPP_CLASS" ["A"].
+  Proof. vm_compute. reflexivity. Qed.
+End Examples.
+
+(* ==== MAIN THEOREMS ====
+   agg_step_append_only, agg_step_append_only_firstn, agg_run_append_only, agg_run_keys_prefix (I1)
+   origins_parallel_step, origins_parallel_run, origins_parallel                           (I1)
+   dangling_no_effect, undocumented_other_no_effect                                        (I2)
+   claimed_definition_no_entry                                                             (I3)
+   module_only_first                                                                       (I4)
+   agg_step_recase, agg_run_recase, aggregate_recase, aggregate_upper_case,
+   aggregate_lower_case, lower_ascii_upper, lower_ascii_idem                               (I5)
+   entries_refine_spec, crash_iff_spec_none                                                (I6)
+   documented_other_generic, one_entry_per_documented_command                              (I7)
+   tools used by other files: classify, classify_spec, enter_documented_eq, enter_command_eq *)
+Print Assumptions agg_step_append_only.
+Print Assumptions agg_step_append_only_firstn.
+Print Assumptions agg_run_append_only.
+Print Assumptions agg_run_keys_prefix.
+Print Assumptions origins_parallel.
+Print Assumptions dangling_no_effect.
+Print Assumptions undocumented_other_no_effect.
+Print Assumptions claimed_definition_no_entry.
+Print Assumptions module_only_first.
+Print Assumptions agg_step_recase.
+Print Assumptions aggregate_recase.
+Print Assumptions aggregate_upper_case.
+Print Assumptions aggregate_lower_case.
+Print Assumptions entries_refine_spec.
+Print Assumptions crash_iff_spec_none.
+Print Assumptions documented_other_generic.
+Print Assumptions one_entry_per_documented_command.
